@@ -2,7 +2,5 @@
 package vkit
 
 import (
-	_ "github.com/zitadel/oidc/v3/pkg/op"
 	_ "golang.org/x/net/html"
-	_ "pgregory.net/rapid"
 )
